@@ -15,7 +15,8 @@ use serde_json::{Value, json};
 use vcore::{Args, Fail, Report};
 use watch::histories::{self as hist, ALL_TAGS};
 use watch::script::{Script, op_to_json};
-use watch::session::{Outcome, Session, Stop, compare};
+use watch::process::{ProcessStats, run_under_cli};
+use watch::session::{Op, Outcome, Session, Stop, compare};
 
 static NEXT_WORKER: AtomicUsize = AtomicUsize::new(0);
 thread_local! {
@@ -135,6 +136,36 @@ fn sign(fail: Fail, script: &Script) -> Fail {
     let effect = fail.signature.split(':').next().unwrap_or("diverge").to_string();
     let tags: Vec<&str> = tags.into_iter().collect();
     Fail::new(format!("{effect}:{}", tags.join("+")), format!("[{}] {}", fail.signature, fail.message))
+}
+
+/// Signature of a failure of the real-process leg: only "the watch process ended" is named by the
+/// recorded-finding triggers of the script (as in the in-process leg).
+fn sign_process(fail: Fail, script: &Script) -> Fail {
+    if fail.signature.starts_with("watcher-stops:") { sign(fail, script) } else { fail }
+}
+
+fn strays() -> Vec<String> {
+    hist::STRAYS.iter().map(|p| p.trim_start_matches("src/__isograph/").to_string()).collect()
+}
+
+fn cli_or_inconclusive() -> PathBuf {
+    let cli = vcore::cli_path();
+    if !cli.is_file() {
+        vcore::inconclusive(&format!("{} is missing (./check builds it: pre=[\"cli\"])", cli.display()));
+    }
+    cli
+}
+
+/// The shape the in-process leg cannot judge: one window that makes a source file unreadable
+/// (invalid UTF-8) AND contains a valid edit that changes the artifacts.
+fn unreadable_plus_valid_edit(k: u8) -> Vec<Op> {
+    let valid = format!(
+        "import {{ iso }} from '@iso';\n\nexport const Pet_Z{k} = iso(`\n  field Pet.Z{k} {{\n    id\n  }}\n`)(function PetZ{k}Impl(data) {{\n  return null;\n}});\n"
+    );
+    vec![
+        Op::Write { path: "src/vendor.js".into(), data: vec![b'/', b'/', b' ', 0xff, 0xfe, 0xfa, k, b'\n'] },
+        Op::Write { path: "src/zz_valid.ts".into(), data: valid.into_bytes() },
+    ]
 }
 
 fn exclusions(report: &Report) -> BTreeSet<String> {
@@ -264,10 +295,23 @@ fn main() {
         let (labels, _) = hist::analyse(&script);
         report.case(if hist::nontrivial(&labels) { Some(&script) } else { None }, &["replay"]);
         report.case(Some("replay-marker"), &[]);
-        match run_script(&script, &worker_root(&base), verbose, &mut st, &mut retries) {
+        let outcome = if v["input"]["leg"] == "process" {
+            let mut ps = ProcessStats::default();
+            let r = run_under_cli(&script, &worker_root(&base), &cli_or_inconclusive(), &strays(), verbose, &mut ps);
+            st.windows = ps.windows;
+            r.map_err(|s| match s {
+                Stop::Fail(f) => Stop::Fail(sign_process(f, &script)),
+                other => other,
+            })
+        } else {
+            run_script(&script, &worker_root(&base), verbose, &mut st, &mut retries).map_err(|s| match s {
+                Stop::Fail(f) => Stop::Fail(sign(f, &script)),
+                other => other,
+            })
+        };
+        match outcome {
             Ok(()) => println!("replay: held ({} windows)", st.windows),
             Err(Stop::Fail(f)) => {
-                let f = sign(f, &script);
                 report.violation("replay", &f, v["input"].clone());
             }
             Err(Stop::Inconclusive(w)) => {
@@ -383,6 +427,93 @@ fn main() {
         report.violation("histories", &fail, script.to_json());
     }
     report.unfreeze();
+
+    // ---- real-process leg: the same kind of histories under the real `isograph_cli --watch` ----
+    if report.violation_count() == 0 {
+        report.engine("subproc: real `isograph_cli --watch` (the product's own loop, 100 ms debounce), observed through stderr and the artifact folder");
+        report.assumption(
+            "real-process leg: a window whose recompiles were split into a successful and a failing batch, a bounded wait that runs out, \
+             and a suspicion that disappears after one more recompile are inconclusive windows (counted), never violations",
+        );
+        let cli = cli_or_inconclusive();
+        let stray = strays();
+        let histories = args.tier.pick(60u32, 1200u32);
+        let pstats = std::sync::Mutex::new(ProcessStats::default());
+        let pinconclusive = std::sync::Mutex::new(BTreeMap::<String, u64>::new());
+        let build = |a: &(hist::AScript, bool, u8)| -> Script {
+            let (mut script, _) = hist::resolve(&a.0, &exclude);
+            script.windows.truncate(4);
+            if a.1 {
+                script.windows.truncate(3);
+                script.windows.push(unreadable_plus_valid_edit(a.2));
+            }
+            script
+        };
+        let found = run_parallel(
+            &report,
+            "process-histories",
+            histories,
+            workers,
+            || (hist::ascript(4), proptest::bool::weighted(0.5), 0u8..200),
+            |a: &(hist::AScript, bool, u8)| {
+                let script = build(a);
+                if script.windows.is_empty() {
+                    report.case::<str>(None, &["process:empty-after-resolution"]);
+                    return Ok(());
+                }
+                let mut ps = ProcessStats::default();
+                let r = run_under_cli(&script, &worker_root(&base), &cli, &stray, false, &mut ps);
+                {
+                    let mut t = pstats.lock().unwrap();
+                    t.windows += ps.windows;
+                    t.windows_last_success += ps.windows_last_success;
+                    t.windows_all_errors += ps.windows_all_errors;
+                    t.windows_split_batches += ps.windows_split_batches;
+                    t.barriers += ps.barriers;
+                    t.resolved_by_barrier += ps.resolved_by_barrier;
+                }
+                let mut labels = vec!["process:history"];
+                if a.1 {
+                    labels.push("process:unreadable-file+valid-edit-in-one-window");
+                }
+                report.case(Some(&("process", &script)), &labels);
+                report.sample("process", 2, || {
+                    let mut j = script.to_json();
+                    j["leg"] = json!("process");
+                    j
+                });
+                match r {
+                    Ok(()) => Ok(()),
+                    Err(Stop::Inconclusive(w)) => {
+                        *pinconclusive.lock().unwrap().entry(w).or_insert(0) += 1;
+                        Ok(())
+                    }
+                    Err(Stop::Fail(f)) => Err(sign_process(f, &script)),
+                }
+            },
+        );
+        if let Some((a, fail)) = found {
+            let mut j = build(&a).to_json();
+            j["leg"] = json!("process");
+            report.violation("process-histories", &fail, j);
+        }
+        report.unfreeze();
+        let t = pstats.lock().unwrap();
+        report.extra(
+            "process_leg",
+            json!({
+                "histories": histories,
+                "windows_judged": t.windows,
+                "windows_last_recompile_succeeded": t.windows_last_success,
+                "windows_every_recompile_failed": t.windows_all_errors,
+                "windows_split_into_success_and_failure (not judged)": t.windows_split_batches,
+                "suspicions_re_examined_after_a_barrier": t.barriers,
+                "of_which_timing (inconclusive)": t.resolved_by_barrier,
+                "inconclusive_histories": *pinconclusive.lock().unwrap(),
+            }),
+        );
+    }
+
     let t = totals.lock().unwrap();
     report.extra("windows_executed", json!(t.0));
     report.extra("recompiles", json!(t.1));
